@@ -4,6 +4,9 @@ mod c18;
 mod c13;
 mod tyval;
 mod c10;
+mod prog;
+mod c04;
+mod gen;
 mod c19;
 
 fn main() {
@@ -19,6 +22,8 @@ fn main() {
         ["c19", "record", runs, path] => c19::record(runs.parse().unwrap(), path),
         ["c10", "replay", path] => c10::replay(path),
         ["c10", "record", runs, path] => c10::record(runs.parse().unwrap(), path),
+        ["c04", "replay", path] => c04::replay(path),
+        ["c04", "record", runs, path] => c04::record(runs.parse().unwrap(), path),
         _ => {
             eprintln!("usage: vh <prop> <replay|record> ...");
             std::process::exit(2);
